@@ -1534,6 +1534,27 @@ func checkDynamicNames(w *World, c *Check, rule string) {
 		n++
 		f := site.Parent()
 		key := funcName(f) + ":dynamic-names"
+		// the names are the name column of a local literal table the loop ranges over: constants, one per row
+		tableNames := ""
+		for _, a := range site.Common().Args {
+			if rows, nf, _, isRow := literalTableRowsOf(unwrap(a)); isRow && len(rows) > 0 && isStringish(a.Type()) {
+				distinct, seenN := true, map[string]bool{}
+				for _, row := range rows {
+					nm, isC := constString(row[nf])
+					if !isC || seenN[nm] {
+						distinct = false
+					}
+					seenN[nm] = true
+				}
+				if distinct {
+					tableNames = fmt.Sprintf("%d distinct constant names of a literal table", len(rows))
+				}
+			}
+		}
+		if tableNames != "" {
+			c.ok(rule, key, w.InstrPos(site), "member names are "+tableNames)
+			continue
+		}
 		if how := nameTransformedAt(w, site); how != "" {
 			c.bad(rule, key, w.InstrPos(site), fmt.Sprintf("%s writes member names that are a transformation of the entry's name (%s) while the test that keeps names apart compares the names as they are: two entries whose names differ only in what the transformation removes (letter case) are written under one and the same member name", funcName(f), how))
 		} else if why := dedupGuard(w, site); why != "" {
